@@ -20,4 +20,4 @@ for d in /tmp/seed/C??/out/*/; do
   ./seedkeep.sh $ID $N "$res" >/dev/null
   echo "$ID-$N | $res | $(python3 -c "import json;print(json.load(open('$d/meta.json'))['title'][:110])")"
 done
-for p in /tmp/seed/C??; do git -C /repo worktree remove --force $p/wt 2>/dev/null; done; git -C /repo worktree prune
+# (scratch worktrees /tmp/seed/*/wt are removed by the integrator at the end of a seeding round, not here: seeders may still be using them)
